@@ -1,6 +1,6 @@
 ------------------------------ MODULE MC_Algo ------------------------------
-(* GEN for C26 / C27: TLC enumerates ALL directed multigraphs with N nodes    *)
-(* and at most MaxE relationships (weights in Weights, NTypes relationship types) as    *)
+(* GEN for C26 / C27: TLC enumerates ALL directed multigraphs with N nodes,   *)
+(* N in Ns, and at most MaxE relationships (weights in Weights, NTypes types) as *)
 (* BAGS of relationships (the history appends relationships in non-decreasing  *)
 (* key order, so every bag is reached exactly once); every graph is printed    *)
 (* as one script in that order and once more with the relationships in the     *)
@@ -12,13 +12,14 @@
 (* every complete graph.                                                       *)
 EXTENDS Algo, Json
 
-CONSTANTS N, MaxE, Weights, NTypes,
+CONSTANTS Ns, MaxE, Weights, NTypes,
           Canonical,            \* TRUE: one history per bag (non-decreasing keys); FALSE: every insertion sequence
           NoRedistribution      \* self-test: claim "PageRank sums to one" WITHOUT dangling redistribution (must fail)
 
-VARIABLE hist
+VARIABLES hist,
+          N        \* number of nodes of the graph being built (chosen initially from Ns)
 TypeSeq == SubSeq(<<"T", "U">>, 1, NTypes)
-vars == <<nn, lab, edges, hist>>
+vars == <<nn, lab, edges, hist, N>>
 
 \* label scheme of the scripts: N on every node, X<u> on every node except u, O<v> on node v only, (Z on nobody)
 LabelsOf(v) == {"N"} \cup {"X" \o ToString(u) : u \in (1..N) \ {v}} \cup {"O" \o ToString(v)}
@@ -27,16 +28,18 @@ TIdx(t) == CHOOSE i \in DOMAIN TypeSeq : TypeSeq[i] = t
 EKey(s, d, w, t) == ((s * 8 + d) * 8 + w) * 8 + TIdx(t)
 LastKey == IF edges = <<>> THEN 0 ELSE LET e == edges[Len(edges)] IN EKey(e.s, e.d, e.w, e.t)
 
-Init == GInit /\ hist = <<>>
+Init == GInit /\ hist = <<>> /\ N \in Ns
 
 DoAddNode == /\ nn < N
              /\ AddNode(LabelsOf(nn + 1))
              /\ hist' = Append(hist, [op |-> "AddNode", labels |-> LabelsOf(nn + 1)])
+             /\ UNCHANGED N
 DoAddEdge == /\ nn = N /\ Len(edges) < MaxE
              /\ \E s \in 1..N, d \in 1..N, w \in Weights, t \in Range(TypeSeq) :
                    /\ Canonical => EKey(s, d, w, t) >= LastKey
                    /\ AddEdge(s, d, w, t)
                    /\ hist' = Append(hist, [op |-> "AddEdge", s |-> s, d |-> d, w |-> w, t |-> t])
+             /\ UNCHANGED N
 Next == DoAddNode \/ DoAddEdge
 Spec == Init /\ [][Next]_vars
 
@@ -44,10 +47,14 @@ RevSeq(s) == [i \in 1..Len(s) |-> s[Len(s) + 1 - i]]
 Reversed(h) == SubSeq(h, 1, N) \o RevSeq(SubSeq(h, N + 1, Len(h)))
 Emit == nn' = N => /\ PrintT(<<"SCRIPT", ToJson(hist')>>)
                    /\ ((Canonical /\ Reversed(hist') # hist') => PrintT(<<"SCRIPT", ToJson(Reversed(hist'))>>))
+\* one script per graph: insertion order ascending or descending depending on a parity of the relationship list
+\* (largest families of the thorough tier: every bag once, both orders exercised)
+EmitAlt == nn' = N => LET par == SumF([i \in DOMAIN edges' |-> edges'[i].s + edges'[i].d + edges'[i].w], DOMAIN edges') % 2
+                      IN PrintT(<<"SCRIPT", ToJson(IF par = 0 THEN hist' ELSE Reversed(hist'))>>)
 \* for -simulate: random graphs with exactly MaxE relationships
 SimEmit == (nn = N /\ Len(edges) = MaxE) => PrintT(<<"SCRIPT", ToJson(hist)>>)
 
-TypeOK == /\ nn \in 0..N /\ Len(lab) = nn /\ Len(edges) <= MaxE
+TypeOK == /\ N \in Ns /\ nn \in 0..N /\ Len(lab) = nn /\ Len(edges) <= MaxE
           /\ \A i \in DOMAIN edges : edges[i].s \in 1..nn /\ edges[i].d \in 1..nn /\ edges[i].w \in Weights
 
 -----------------------------------------------------------------------------
@@ -100,5 +107,5 @@ UnionLemma == Done => \A k \in {2, 3} :
                                 Canon(st.num[v], st.D * k) = Canon(sh.num[j * n + v], sh.D)
                      /\ \A it \in 0..3 : \A v \in G.V, j \in 0..(k - 1) : Cdlp(H, it)[j * n + v] = j * n + Cdlp(G, it)[v]
 
-View == <<nn, lab, edges>>
+View == <<nn, lab, edges, N>>
 =============================================================================
